@@ -13,6 +13,8 @@ def run_e2(res, tier):
     cp, info = fam_custom.corpus(tier)
     for pid in cp.failed:
         res.violation({"kind": "compile", "pid": pid, "what": "valid custom program %s does not compile: %s" % (pid, cp.failed[pid][0]["message"]), "diags": cp.failed[pid][:3]})
+    if "pnat0" in cp.failed:
+        return   # reported above; nothing to compare against
     nat_c = info["pnat0"][0]
     nat_ifaces = {i.module: i for i in nat_c.interfaces}
     ctxs = [fam_basic.CONTEXTS[1], fam_basic.CONTEXTS[2], fam_basic.FAIL_CONTEXTS[0]]
@@ -95,7 +97,7 @@ def run_e2(res, tier):
             if o.get("res") == "err" and o.get("err") != to.get("err") and op != "mt":
                 bad("error differs from the native twin: %s vs %s" % (o.get("err"), to.get("err")), "twin_err")
     res.parts["e2_cases"] = len(cases)
-    res.sample({"case": cases[0], "observation": obs[0]})
+    res.sample(lambda: {"case": cases[0], "observation": obs[0]})
 
 
 def run(tier):
